@@ -165,6 +165,16 @@ CHECKS['C09'] = dict(
          'the weighted-L2 scaling must be (h_t^{-1/2}, h_x^{-1}). Quadrature accuracy, pool path, rigid symmetries NOT decided.',
     design_ref='3.16', technique='symbolic execution of src/error_estimator.py with recording stand-ins; identities on canonical forms; reference neighbour model',
     note='One known finding: on a one-piece closed curve (Circle) a seam pair is integrated over the complementary arc.')
+CHECKS['C08'] = dict(
+    category='other',
+    text='Structural part: real InitialOperator.linform on the real boundary-refined domain meshes with a symbolic time '
+         'interval and an uninterpreted initial datum: (G) for every dyadic boundary segment up to the level bound exactly '
+         'one leaf has the segment as an edge, every leaf meeting the segment has an end point as a vertex, the identical '
+         'cell is parametrised orthonormally (polynomial identity); (K) the load is additive under time splits and '
+         'linform([a,b]) = linform([0,b]) - linform([0,a]) - exact identities pinning the a == 0 case distinction; (U) '
+         'linear in u0; (R) the Duffy rules the operator holds integrate all monomials of degree <= 2 incl. non-symmetric '
+         'ones. The 1e-5 agreement with closed forms, space additivity and pointwise evaluation are NOT decided.',
+    design_ref='3.15', technique='symbolic execution of src/initial_potential.py (E1 uninterpreted) + identities on canonical forms; ground rational rule checks',
+    note='quad_int = 1 for the symbolic part; segment levels <= 2 (quick) / 4 (thorough).')
 NA['C13'] = ('an eigenvalue bound on a matrix whose entries are quadratures of Ei/exp: no fragment of it is a '
              'statement an SMT solver can decide about the real code (DESIGN 3.20)')
-NA['C08'] = 'check not built yet (work in progress; see DESIGN.md for the plan)'
